@@ -221,6 +221,24 @@ func CheckCase(c Case) *ev.Violation {
 	prevGen := -1
 	for i, g := range gens {
 		prefix := ""
+		if g == 3 {
+			// a generator that blows up part-way: the render fails, and a failed Render returns no text
+			w.SetRowClassGenerator(func(n int, x interface{}) template.HTMLAttr {
+				if n > 0 || len(m.DataRows()) == 0 {
+					panic("row-class generator failed")
+				}
+				return "r0"
+			}, nil)
+			prevGen = 3
+			out, err := w.Render()
+			if err == nil {
+				return ev.V("render %d: the row-class generator panicked but Render returned no error (output %q)", i+1, out)
+			}
+			if out != "" {
+				return ev.V("render %d: Render returned error %v together with text %q", i+1, err, out)
+			}
+			continue
+		}
 		if g != prevGen {
 			switch g {
 			case 0:
